@@ -30,7 +30,7 @@ func TestC08(t *testing.T) {
 		s  *w.State
 	}
 	var held []start
-	perSc := map[string]int{} // closure starts kept per scenario
+	perSc := map[string]int{}  // closure starts kept per scenario
 	seenSc := map[string]int{} // paused/frozen states seen per scenario: the first 3000 are all used, then every 5th
 	k := 0
 	runWorld(t, run, scs, []func(*w.MonCtx){w.MonC08, w.MonC14Status, w.MonC05}, 0, func(sc *w.Scenario, s *w.State, d int) {
@@ -100,7 +100,7 @@ func TestC08(t *testing.T) {
 							(fe.Status.State == v1.ExtendedDaemonSetStatusStateCanaryPaused || w.ERSCondTrue(frs, v1.ConditionTypeCanaryPaused)) {
 							run.Violate(h.Violation{Signature: "C08/unpause: a paused canary does not resume after canary unpause", Monitor: "C08/closure",
 								Message: fmt.Sprintf("state=%s Canary-Paused=%v", fe.Status.State, w.ERSCondTrue(frs, v1.ConditionTypeCanaryPaused)),
-								Replay: map[string]interface{}{"scenario": st.sc.Name, "start_state": st.s.Describe(), "then": "kubectl-eds canary unpause, fair rounds", "final_state": r.Final.Describe()}})
+								Replay:  map[string]interface{}{"scenario": st.sc.Name, "start_state": st.s.Describe(), "then": "kubectl-eds canary unpause, fair rounds", "final_state": r.Final.Describe()}})
 						}
 					}
 				}
